@@ -163,11 +163,14 @@ def _order_part(chk):
                     'INIT Init\nNEXT Next\nINVARIANT Defined\nCHECK_DEADLOCK FALSE\n')
         res = tlc.run('Trace_C08_order', cwd=tmpd, workers=2)
         chk.add_tlc(res, 'order-trace')
-        bad = [t for t in res.tuples if t.startswith('<<"BAD"')]
-        if not bad:
+        i = res.stdout.find('"BAD"')
+        if i < 0:
             chk.machinery('order trace: no verdict line')
-        elif bad[0].replace(' ', '') != '<<"BAD",{}>>':
-            chk.drift.append({'check_order_not_in_model': bad[0][:500]})
+        else:
+            verdict = res.stdout[i:i + 2000].split('>>\n')[0]
+            if verdict.replace(' ', '').replace('\n', '') not in ('"BAD",{}', '"BAD",{}>>'):
+                # the code runs its checks in an order the model does not know: model/code drift, never a verdict
+                chk.drift.append({'check_order_not_in_model': ' '.join(verdict.split())[:600]})
         chk.count(len(uniq), traces=len(uniq))
     finally:
         shutil.rmtree(tmpd, ignore_errors=True)
